@@ -599,9 +599,10 @@ pub fn run_case<T: Node + ?Sized, B: Backing>(header_line: &str, hdr: &Header, s
         let pre_bytes = access.bytes();
         access.begin_op();
         let snap = if prop == Prop::C03 { Some(access.snapshot()) } else { None };
-        if prop == Prop::C03 {
+        if prop == Prop::C03 || B::NEEDS_TRACE {
             start_trace();
         }
+        crate::node::MUT_VIEW.with_borrow_mut(|m| *m = None);
         let exec = catch(|| -> Out {
             match &plan {
                 Plan::Enter(s, _) => match stack.last_mut().unwrap().enter(*s) {
@@ -628,7 +629,7 @@ pub fn run_case<T: Node + ?Sized, B: Backing>(header_line: &str, hdr: &Header, s
                 Plan::Apply(_) => stack.last_mut().unwrap().exec(&ol.path, &ol.op),
             }
         });
-        let trace = if prop == Prop::C03 { take_trace(access.base_addr()) } else { vec![] };
+        let trace = if prop == Prop::C03 || B::NEEDS_TRACE { take_trace(access.base_addr()) } else { vec![] };
         {
             let rs: Vec<(usize, usize)> = trace.iter().filter_map(|a| if let Acc::Realloc { old, new, .. } = a { Some((*old, *new)) } else { None }).collect();
             access.note_trace(&rs);
@@ -780,6 +781,22 @@ pub fn run_case<T: Node + ?Sized, B: Backing>(header_line: &str, hdr: &Header, s
             _ => {}
         }
         orc.check_state::<T, B>(&obs, &levels, access);
+        // what the `&mut` pointer RETURNED by get_mut / index_mut / first_mut / last_mut / UnsizedMap::get_mut /
+        // get_by_index_mut showed must be the model's element at that index (length AND bytes)
+        if let (Op::UTouch(i), Out::Ok(_)) = (&ol.op, &impl_out) {
+            if let Some(seen) = crate::node::MUT_VIEW.with_borrow_mut(|m| m.take()) {
+                let mut abs = base.clone();
+                abs.extend_from_slice(&ol.path);
+                abs.push(Step::Elem(*i));
+                let exp = get_at(&shape, &orc.model, &abs).map(|x| x.1.clone());
+                if exp.as_ref() != seen.as_ref().ok() {
+                    orc.fail(
+                        "get_mut_view_mismatch",
+                        format!("`{line}`: the returned &mut element pointer shows {} but element {i} is {}", vstr(&seen), exp.map(|v| v.print()).unwrap_or("absent".into())),
+                    );
+                }
+            }
+        }
         while out.states.len() < out.lines.len() - 1 {
             // lines answered without executing (bad-op / dead) keep the previous state
             let last = out.states.last().unwrap().clone();
